@@ -230,7 +230,7 @@ class IrGen:
         return node(("HBinders", self.vkinds(0, 2)), [self.wc(d, binders + 1)])
 
     def dyn_ty(self, d, binders=0):
-        qs = [self.qwc(d - 1, binders + 1) for _ in range(self.r.randint(1, 2))]
+        qs = [self.qwc(d - 1, binders + 1) for _ in range(self.r.choice([0, 1, 1, 2, 2, 3]))]
         b = node(("HBinders", [("VTy", "General")]), [node("HList", qs)])
         return node("HDyn", [b, self.lifetime(binders)])
 
